@@ -17,14 +17,14 @@ structure Built (gL : Graph) (lt : PubRef) (g : Graph) (w : WRef) (lp : PubRef) 
   gid_lt : w.gid < g.next
   gid_ge : gL.next ≤ w.gid
   kind : g.kindOf w.uid = some (.worker w.gid w.actor 1 1)
-  free : g.inputOf w.uid 0 = none
+  free : ∀ k, g.inputOf w.uid k = none
   trained : w.actor.stateful = true → ∃ t, g.trainerOf w.gid = some t ∧ t.train = lt ∧ t.label = lp
 
 theorem Built.frame {gL lt g g' w lp} (h : Built gL lt g w lp) (hf : Frame g g') : Built gL lt g' w lp := by
   have := hf.next_le
   refine ⟨h.uid_ge, by have := h.uid_lt; omega, by have := h.gid_lt; omega, h.gid_ge, ?_, ?_, ?_⟩
   · rw [hf.kind _ h.uid_lt]; exact h.kind
-  · rw [hf.input _ _ h.uid_lt]; exact h.free
+  · intro k; rw [hf.input _ _ h.uid_lt]; exact h.free k
   · intro hs
     rw [hf.trainer _ h.gid_lt]
     exact h.trained hs
@@ -100,7 +100,8 @@ theorem build_spec {gL g : Graph} (hb : Bounded g) (hfL : Frame gL g) (lt lp : P
       g.next + 3 ≤ g'.next ∧ g'.next ≤ g.next + 4 ∧
       Built gL lt g' w (lpOf a.tag) ∧ g.next ≤ w.uid ∧ w.actor = buildActor groups a ∧
       GroupsOk gL lt lpOf g' (buildGroups groups a g.next) ∧
-      g'.trains = g.trains ++ buildTrains groups a g.next lt lp := by
+      g'.trains = g.trains ++ buildTrains groups a g.next lt lp ∧
+      (∀ u k, g'.inputOf u k = g.inputOf u k) ∧ (Wired g → Wired g') := by
   have hgL := hfL.next_le
   have hk0 : ∀ u, g.next ≤ u → g.kindOf u = none := fun u hu => hb.kindOf_none hu
   have hin0 : ∀ u k, g.next ≤ u → g.inputOf u k = none := fun u k hu => hb.inputOf_none hu k
@@ -146,14 +147,15 @@ theorem build_spec {gL g : Graph} (hb : Bounded g) (hfL : Frame gL g) (lt lp : P
       simp [hct, w]
       rfl
     refine ⟨w, g3, ?_, hb3, hf3, by rw [hn3]; omega, by rw [hn3]; split <;> omega, ?_, by show g.next ≤ g.next + 2; omega,
-      by simp [buildActor, hlk, w], ?_, ?_⟩
+      by simp [buildActor, hlk, w], ?_, ?_, ?_, ?_⟩
     · simpa [buildGroups, hlk] using hrun
     · refine ⟨by show gL.next ≤ g.next + 2; omega, by rw [hn3]; show g.next + 2 < _; omega,
         by rw [hn3]; show g.next + 1 < _; omega, by show gL.next ≤ g.next + 1; omega, ?_, ?_, ?_⟩
       · show (trainIf c w lt lp g2).kindOf (g.next + 2) = _
         rw [trainIf_kindOf _ (by rw [hn2]; omega)]
         glook [hk0]
-      · show (trainIf c w lt lp g2).inputOf (g.next + 2) 0 = none
+      · intro k
+        show (trainIf c w lt lp g2).inputOf (g.next + 2) k = none
         rw [trainIf_inputOf]
         glook [hin0]
       · intro hs
@@ -174,6 +176,12 @@ theorem build_spec {gL g : Graph} (hb : Bounded g) (hfL : Frame gL g) (lt lp : P
       show g.trains ++ _ = _
       simp only [buildTrains, hlk, hc]
       rfl
+    · intro u k
+      show (trainIf c w lt lp g2).inputOf u k = _
+      rw [trainIf_inputOf]
+      rfl
+    · intro hw
+      exact trainIf_wired ((hw.bump.bump.pushNode _).bump.pushNode _)
   | some p =>
     have hp := hG _ (lookup_mem _ _ _ hlk)
     have hpg : p.gid < g.next := hp.gid_lt
@@ -209,7 +217,8 @@ theorem build_spec {gL g : Graph} (hb : Bounded g) (hfL : Frame gL g) (lt lp : P
         (by intro h; rw [hc] at h; cases h) (by intro h; rw [hc] at h; cases h) (by rw [hc]; exact Run.pure _ _)
       exact this
     refine ⟨w, g2, ?_, hb2, hf2, by show g.next + 3 ≤ g.next + 1 + 1 + 1; omega, by show g.next + 1 + 1 + 1 ≤ _; omega, ?_,
-      by show g.next ≤ g.next + 2; omega, by simp [buildActor, hlk, w], ?_, ?_⟩
+      by show g.next ≤ g.next + 2; omega, by simp [buildActor, hlk, w], ?_, ?_, fun u k => rfl,
+      fun hw => (hw.bump.bump.pushNode _).bump.pushNode _⟩
     · simpa [buildGroups, hlk] using hrun
     · refine ⟨by show gL.next ≤ g.next + 2; omega, by show g.next + 2 < g.next + 1 + 1 + 1; omega,
         by show p.gid < g.next + 1 + 1 + 1; omega, hp.gid_ge, ?_, ?_, ?_⟩
@@ -218,7 +227,8 @@ theorem build_spec {gL g : Graph} (hb : Bounded g) (hfL : Frame gL g) (lt lp : P
         have e2 := hp.szout
         simp only at e1 e2
         glook [hk0, e1, e2]
-      · show g2.inputOf (g.next + 2) 0 = none
+      · intro k
+        show g2.inputOf (g.next + 2) k = none
         glook [hin0]
       · intro hs
         obtain ⟨t, h1, _, h3, h4⟩ := hp.trained hs
